@@ -158,7 +158,10 @@ let eval_case_fuel (case : string) (fixedlim : bool) (fuel_n : int) : string =
   | ((ROk _ | RErr _) as r, log) ->
     let b = Buffer.create 128 in
     show_forest b log;
-    Printf.sprintf "%s log=%s || %s" (match r with ROk _ -> "Ok" | _ -> "Err") (Buffer.contents b) (outcome_string (outcome_of cfg r))
+    (* the harness takes Ok/Err from the result of state(): with C12's repair an Ok closure result whose call limit
+       was reached is reported as the call-limit error *)
+    let o = outcome_of cfg r in
+    Printf.sprintf "%s log=%s || %s" (match o with OPairs _ -> "Ok" | _ -> "Err") (Buffer.contents b) (outcome_string o)
 
 (* fuel 500 suffices for the generated cases; a model run that exhausts it is repeated with more before it is compared *)
 let eval_case (case : string) (fixedlim : bool) : string =
